@@ -4,6 +4,7 @@ C12 driver: one case line (after the leading `C12` token)
   <method> p=<hex> q=<hex>|q=- h=<name:hex,...>|h=- b=<hex> ds=<status>:<bodyhex>:<hdrhex> f=<Rpc,...>|f=-
   pc=<hex> rc=<hex> pins=<hex,...>|pins=- np=<n> gc=<hex,...>|gc=- or=<arg>:<pp|!>:<cd|!>;...|or=- ing=<n> xp=<hex> dx=<cmd>|dx=-
   [cf=<read_header_timeout ms>:<idle_timeout ms> dl=<daemon delay before its answer, ms>:<pause in the middle of the body, ms>]
+  [sb=<k.k...: RepoStat calls (in arrival order) that fail>] [ge=<bit 0: a peer's gc failed, bit 1: a key error>]
   => st=<n> se=<0|1> rb=<hex> dh=<hex> it=<hex,...>|it=- d=<req;...>|d=- r=<rpc;...>|r=-
 
   req = METHOD|<pathhex>|<queryhex or ->|<name:hex,... or ->|<bodyhex>
@@ -90,13 +91,24 @@ def parsePair2 (s : String) : Option (Nat × Nat) :=
 
 def parseCase (ws : List String) : Option (Input × Output × String) := do
   let (pre0, post) ← splitArrow ws
-  -- round 8: two optional trailing input tokens (absent = default configuration, prompt daemon)
-  let (pre, cfg, dl) ← (match pre0 with
-    | [m, p, q, h, b, ds, f, pc, rc, pins, np, gc, orc, ing, xp, dx, cf, dl] => do
-      let (rh, idle) ← parsePair2 (← field "cf=" cf)
-      let (dd, gap) ← parsePair2 (← field "dl=" dl)
-      pure ([m, p, q, h, b, ds, f, pc, rc, pins, np, gc, orc, ing, xp, dx], ({ readHeader := rh, idle := idle } : Timeouts), (dd, gap))
-    | l => some (l, ({} : Timeouts), (0, 0)))
+  -- optional trailing input tokens (absent = default configuration, prompt daemon, no per-peer failures)
+  let pre := pre0.take 16
+  let extras := pre0.drop 16
+  if !(extras.all fun w => w.startsWith "cf=" || w.startsWith "dl=" || w.startsWith "sb=" || w.startsWith "ge=") then none
+  let opt (pfx : String) : Option String := (extras.find? (·.startsWith pfx)).map (fun w => (w.drop pfx.length).toString)
+  let (cfg, dl) ← (match opt "cf=", opt "dl=" with
+    | some cf, some dl => do
+      let (rh, idle) ← parsePair2 cf
+      let (dd, gap) ← parsePair2 dl
+      pure (({ readHeader := rh, idle := idle } : Timeouts), (dd, gap))
+    | none, none => some (({} : Timeouts), (0, 0))
+    | _, _ => none)
+  let statBad ← (match opt "sb=" with
+    | some sb => (sb.splitOn ".").mapM String.toNat?
+    | none => some [])
+  let gcErr ← (match opt "ge=" with
+    | some ge => ge.toNat?
+    | none => some 0)
   match pre, post with
   | [m, p, q, h, b, ds, f, pc, rc, pins, np, gc, orc, ing, xp, dx], [st, se, rb, dh, it, d, r] =>
     let (dst, dbody, dhdr) ← parseDs (← field "ds=" ds)
@@ -106,7 +118,7 @@ def parseCase (ws : List String) : Option (Input × Output × String) := do
         pins := ← hexCsv (← field "pins=" pins), npeers := ← (← field "np=" np).toNat?,
         gcKeys := ← hexCsv (← field "gc=" gc), oracle := ← parseOracle (← field "or=" orc),
         ing := ← (← field "ing=" ing).toNat?, extractPath := ← hex (← field "xp=" xp),
-        cfg := cfg, dDelay := dl.1, dGap := dl.2 }
+        cfg := cfg, dDelay := dl.1, dGap := dl.2, statBad := statBad, gcErr := gcErr }
     let i : Input :=
       { method := m, path := ← hex (← field "p=" p), query := ← hexOpt (← field "q=" q),
         hdrs := ← parseHdrs (← field "h=" h), body := ← hex (← field "b=" b), env := env }
